@@ -5,7 +5,7 @@
    renders to source(). *)
 From Coq Require Import List NArith Bool Lia Permutation.
 From RS Require Import Base.Prelude Base.Text Rope.RopeModel Stream.Types Stream.Leaves
-  Stream.Replace Stream.Tree Checkers.ChkTree.
+  Stream.Replace Stream.Tree Api.ApiTree Checkers.ChkTree.
 From RS Require Import Proofs.RopeBasic Proofs.RopeWf Proofs.RopeUtf8 Proofs.RopeOps
   Proofs.RopeSlice Proofs.ReplaceSort Proofs.ViewsUtf8.
 Import ListNotations.
@@ -330,6 +330,27 @@ Theorem rope_renders_source (s : src) :
   exists r, rope_of s = Some r /\ flat r = source s /\ rope_wf r = true /\ rope_valid r = true.
 Proof. exact (renders_all s). Qed.
 
+(* ---------- the C07 checker accepts the model's own observations ---------- *)
+Theorem chk_C07_model (s : src) (ws : list (N * wop)) :
+  tree_wf s = true -> chk_C07 s (api_tree s ws) = 0.
+Proof.
+  intros Hwf. unfold chk_C07, api_tree.
+  cbn [to_source to_buffer to_size to_rope to_writer].
+  rewrite Hwf. cbn [negb].
+  destruct (rope_renders_source s Hwf) as (r & E & F & _ & _). rewrite E, F.
+  cbn [opt_eqb]. rewrite text_eqb_refl. cbn [negb].
+  rewrite size_is_buffer_len, N.eqb_refl. cbn [negb].
+  rewrite writer_calls_buffer, text_eqb_refl. cbn [negb].
+  assert (E4 : all_leaves_valid s && negb (text_eqb (buffer s) (source s)) = false).
+  { destruct (all_leaves_valid s) eqn:Ev; [|reflexivity].
+    rewrite (buffer_is_source s Ev), text_eqb_refl. reflexivity. }
+  rewrite E4.
+  destruct s as [b v|v|v|v name|v name m orig inner remove|cs|inner rs|id inner];
+    try reflexivity.
+  - destruct b; [|reflexivity]. cbn [buffer source]. rewrite !text_eqb_refl. reflexivity.
+  - cbn [buffer source]. rewrite !text_eqb_refl. reflexivity.
+Qed.
+
 Print Assumptions src_ind_nested.
 Print Assumptions size_is_buffer_len.
 Print Assumptions writer_calls_buffer.
@@ -339,3 +360,4 @@ Print Assumptions binary_leaf_raw.
 Print Assumptions concat_views.
 Print Assumptions source_valid.
 Print Assumptions rope_renders_source.
+Print Assumptions chk_C07_model.
